@@ -184,7 +184,10 @@ def dump_mir(repo_copy, logdir):
 
 def build_replay(repo_copy, logdir):
     d = os.path.join(os.path.dirname(repo_copy), "replay_m")
-    shutil.copytree(os.path.join(C.VERIF, "replay_m", "src"), os.path.join(d, "src"))
+    b = os.path.join(d, "target", "debug", "replay_m")
+    if os.path.exists(b):
+        return b
+    shutil.copytree(os.path.join(C.VERIF, "replay_m", "src"), os.path.join(d, "src"), dirs_exist_ok=True)
     with open(os.path.join(C.VERIF, "replay_m", "Cargo.toml.in")) as f:
         toml = f.read().replace("@REPO@", repo_copy)
     with open(os.path.join(d, "Cargo.toml"), "w") as f:
